@@ -238,7 +238,10 @@ class Interp:
         kw = dict(kw)
         for k in ("dtype", "order", "copy", "subok"):
             kw.pop(k, None)
-        if name in ("asanyarray", "asarray", "array", "ascontiguousarray", "float64", "asfarray"):
+        if name == "array":
+            a0 = arr(args[0])
+            return a0.copy() if isinstance(a0, np.ndarray) else a0  # np.array copies; the as* family aliases
+        if name in ("asanyarray", "asarray", "ascontiguousarray", "float64", "asfarray"):
             return arr(args[0])
         if name in ("zeros", "empty"):
             return _zeros(args[0])
